@@ -112,7 +112,7 @@ def additiveOldError (sums xs : List String) (ds : List (Disc B)) : Option Strin
     | some e => some e
     | none =>
       if ds.any (fun d => !decide (s ∈ d.jac.rows)) then some "E:key"
-      else if xs.any (fun x => ds.all (fun d => (d.jac.row s x).isNone)) then some "E:assert"
+      else if xs.any (fun x => ds.all (fun d => ((d.jac.row s).get x).isNone)) then some "E:assert"
       else none) none
 
 mutual
